@@ -8,9 +8,9 @@ import shutil
 import common
 from cases import CaseSet, sanitize_numbers
 from common import fhex
-from qgen import query3d, prop_list
+from qgen import query3d, prop_list, line_query
 from wbgen import props_tok
-from worlds import area_world, any_world
+from worlds import area_world, any_world, line_world
 
 
 def run(chk):
@@ -71,10 +71,17 @@ def run(chk):
     meta = []
     for wi in range(8 if quick else 60):
         wj, sph = any_world(rng, cross=False)
-        slot = cs.add_world(wj, model=False)
         qs = [query3d(rng, wj, sph) for _ in range(40)]
-        ps = prop_list(rng, maxlen=5)
         T = rng.choice([2, 3, 4, 8, 16, 32])
+        if wi % 2 == 1:
+            # a slab or fault with many queries inside its bounding box: any per-feature mutable state (caches, scratch
+            # members) written during a query is then hit by several threads at once
+            wj, sph, lf = line_world(rng, kind=rng.choice(["fault", "subducting plate"]), spherical=rng.random() < 0.3, extra_area=0.3)
+            qs = [line_query(rng, wj, sph, lf, spread=rng.choice([0.2, 0.5, 1.0])) for _ in range(150)]
+            qs = [(p, d) for p, d in qs if d >= 0]
+            T = rng.choice([8, 16, 32])
+        slot = cs.add_world(wj, model=False)
+        ps = prop_list(rng, maxlen=5)
         cs.raw("mt %d %d %d %s %s" % (slot, T, len(qs), " ".join("%s %s %s %s" % (fhex(p[0]), fhex(p[1]), fhex(p[2]), fhex(d)) for p, d in qs), props_tok(ps)),
                "let () = out_str \"skip\"", {"kind": "mt", "threads": T, "world": wj, "props": ps})
     impl2, _ = cs.run(model=False)
